@@ -104,6 +104,10 @@ def ref_meta(rng, box):
         extra["url-list"] = rng.choice(metas.URLS)
     if rng.random() < 0.5:
         extra["x-unknown"] = {"k": [1, "two", {"z": -3}]}
+    if rng.random() < 0.4:
+        # the bytes "4:info" before the real info dictionary
+        extra.update(rng.choice([{"comment": "info"}, {"azureus_properties": {"info": 5}},
+                                 {"a-list": ["info", "x"]}, {"created by": "info"}]))
     info_extra = {"private": 1} if rng.random() < 0.3 else {}
     if rng.random() < 0.3:
         info_extra["zzz-ext"] = "v"
@@ -142,6 +146,14 @@ def run_case(run, drv, case_seed):
             if kind == "edited":
                 for _ in range(rng.randrange(1, 4)):
                     apply_request_impl(m["path"], gen_request(rng), rng.random() < 0.3)
+                # an earlier magnet request for the same path in this process, then an edit
+                # that keeps the file length: the next URI must describe the file as it is now
+                impl.edit(m["path"], {"announce": ["http://t.example/announcA"], "comment": "abc"})
+                try:
+                    impl.magnet(m["path"], 0)
+                except Exception:
+                    pass
+                impl.edit(m["path"], {"announce": ["http://t.example/announcB"], "comment": "abd"})
             raw, path = open(m["path"], "rb").read(), m["path"]
             desc = {"source": kind, "version": m["version"], "opts": sorted(m["opts"]),
                     "creator": m["creator"]}
